@@ -96,7 +96,7 @@ CHECKS = {
  "C14": ("E3-registry-seam", "exploration",
    "exhaustive enumeration of a stated family of periodic byte streams through the six real workflows (real registry runners memoised per distinct sample)",
    "Constant-byte streams (16 in quick, all 256 in thorough), periods 2..64 (quick: 2,3,64) x {counter, bit-balanced, fixed filler}, a lone 0x01 in zeros at every position for p in {2,63,64} through FactoryDetect/PowerOnDetect/PeriodDetect and their Fast variants with the real tests; all-zero and all-one sources through SingleDetect at every length 16..4096, 12500, 125000: verdict false with a non-nil error, no panic.",
-   "period contents beyond the listed kinds are not enumerated; parallel variants run free-running (schedules are C08's subject)",
+   "period contents beyond the listed kinds are not enumerated; the real-runner part runs the parallel variants free-running, the concurrent-pair part runs under the controlled scheduler with stub runners",
    "DESIGN.md section 3 C14"),
  "C18": ("E1-vsched + explicit-state search", "model_checking",
    "explicit-state breadth-first search over operation sequences with the deep dump of all package-level variables as state; stateless preemption-bounded exploration of concurrent call pairs with scheduling points at every access to package-level state; cold-process -race pass",
